@@ -11,6 +11,7 @@
 #include <memory>
 #include <sys/mman.h>
 #include <unistd.h>
+#include <time.h>
 #include <xmmintrin.h>
 
 #include "randomx.h"
@@ -179,6 +180,10 @@ struct Engine {
 	bool traceExec = false;
 	uint64_t maxInsns = 400000000ull;
 	// details of the last JIT run, for reports
+	uint8_t* ispad[2] = { nullptr, nullptr }; uint8_t* jspads[2] = { nullptr, nullptr }; bool spadClean[2] = { false, false }; uint8_t* ownSpad[2] = { nullptr, nullptr };
+	std::vector<uint8_t> trackBitmap;
+	double tInterp = 0, tGen = 0, tEmu = 0, tMem = 0;   // seconds spent per phase (profiling aid)
+	static double nowS() { timespec ts; clock_gettime(CLOCK_MONOTONIC, &ts); return ts.tv_sec + 1e-9 * ts.tv_nsec; }
 	int32_t lastCodeEnd = 0;
 	randomx::JitCompilerRV64* lastJit = nullptr;
 
@@ -263,12 +268,21 @@ struct Engine {
 		const uint32_t ma0 = vm->mem.ma, mx0 = vm->mem.mx;
 		const uint64_t datasetOffset = vm->datasetOffset;
 		randomx::fpu_reg_t a0[4]; memcpy(a0, vm->reg.a, sizeof a0);
+		double t0 = nowS();
 		memset(vm->reg.r, 0xA5, 192);            // r, f, e are outputs: stale garbage before the run, as in real use
-		memcpy(vm->scratchpad, image, SpadSize);
+		// one interpreter-side and one JIT-side scratchpad buffer per image, each kept equal to its image between cases
+		if (!ispad[c.spad]) { ispad[c.spad] = (uint8_t*)mmap(nullptr, SpadSize, PROT_READ | PROT_WRITE, MAP_PRIVATE | MAP_ANONYMOUS, -1, 0); jspads[c.spad] = (uint8_t*)mmap(nullptr, SpadSize, PROT_READ | PROT_WRITE, MAP_PRIVATE | MAP_ANONYMOUS, -1, 0); }
+		if (!ownSpad[c.light]) ownSpad[c.light] = vm->scratchpad;   // the buffer VmBase::allocate() gave the VM (restored in the destructor)
+		vm->scratchpad = ispad[c.spad]; jspad = jspads[c.spad];
+		bool& clean = spadClean[c.spad];
+		if (!clean) { memcpy(vm->scratchpad, image, SpadSize); memcpy(jspad, image, SpadSize); }
+		clean = false;
+		double t1 = nowS(); tMem += t1 - t0;
 		rx_set_rounding_mode((uint32_t)c.rmode);
 		vm->execute();
 		const int rmI = (int)rx_get_rounding_mode();
 		_mm_setcsr(0x1F80);
+		double t2 = nowS(); tInterp += t2 - t1;
 
 		// ---- system under test: CompiledVm::run / CompiledLightVm::run / CompiledVm::execute glue (vm_compiled*.cpp)
 		j->setFlags(flags);
@@ -276,12 +290,15 @@ struct Engine {
 		if (c.light) j->generateProgramLight(vm->program, cfg2, (uint32_t)datasetOffset);
 		else j->generateProgram(vm->program, cfg2);
 		lastCodeEnd = rv64glue::codePosAfterProgram(j);
+		double t3 = nowS(); tGen += t3 - t2;
 		memset(&jreg, 0x5A, sizeof jreg);
 		memcpy(jreg.a, a0, sizeof a0);
 		memcpy(jreg.f, config.eMask, sizeof(config.eMask));     // "#if defined(__aarch64__) || defined(__riscv)" in CompiledVm::execute
 		jmem.mx = mx0; jmem.ma = ma0;
 		jmem.memory = c.light ? cache->memory : env->ds.memory + datasetOffset;   // CompiledLightVm::setCache / CompiledVm::run
-		memcpy(jspad, image, SpadSize);
+		if (trackBitmap.empty()) trackBitmap.assign(SpadSize / 64, 0);
+		m.trackLo = (uint64_t)(uintptr_t)jspad; m.trackSize = SpadSize; m.trackBitmap = trackBitmap.data(); m.trackList.clear();
+		double t4 = nowS(); tMem += t4 - t3;
 		setupMachine(j);
 		m.addRange(&jreg, sizeof jreg, rv64emu::PR | rv64emu::PW, "register file");
 		m.addRange(&jmem, sizeof jmem, rv64emu::PR | rv64emu::PW, "MemoryRegisters");
@@ -295,6 +312,20 @@ struct Engine {
 		uint64_t ic0 = m.icount;
 		rv64emu::Stop st = m.run((uint64_t)(uintptr_t)j->getProgramFunc(), maxInsns);
 		o.guestInsns = m.icount - ic0;
+		double t5 = nowS(); tEmu += t5 - t4;
+		// Scratchpad bookkeeping: both scratchpads were equal to the image on entry. If the two engines end with
+		// identical scratchpads, the lines either of them changed are among the lines the guest stored to, so
+		// restoring exactly those lines from the image re-establishes the invariant; otherwise copy everything.
+		struct TM { Engine& E; const Case& c; IVm* vm; const uint8_t* image; bool& clean; double t5; bool equal = false;
+			~TM() {
+				if (equal) {
+					for (uint32_t l : E.m.trackList) { memcpy(E.jspad + 64 * (size_t)l, image + 64 * (size_t)l, 64); memcpy(vm->scratchpad + 64 * (size_t)l, image + 64 * (size_t)l, 64); E.trackBitmap[l] = 0; }
+					clean = true;
+				}
+				else { for (uint32_t l : E.m.trackList) E.trackBitmap[l] = 0; clean = false; }
+				E.m.trackList.clear(); E.m.trackSize = 0;
+				E.tMem += nowS() - t5;
+			} } tm{ *this, c, vm, image, clean, t5 };
 
 		// ---- compare
 		char nb[16];
@@ -321,6 +352,7 @@ struct Engine {
 			char t[200]; snprintf(t, sizeof t, "scratchpad[0x%zx]: interpreter %016llx, RV64 JIT %016llx (initial %016llx)", q, (unsigned long long)ev, (unsigned long long)av, (unsigned long long)iv);
 			o.detail = t; return o;
 		}
+		tm.equal = true;
 		int rmJ = rv64emu::Machine::randomXFromFrm(m.frm);
 		if (rmJ != rmI) {
 			o.agree = false; o.kind = "rounding";
